@@ -22,7 +22,7 @@ structure Srv where
   sk : Bytes
   adminUID : Bytes
   bypass : List Bytes                 -- includes the admin UID when one is configured (InitState)
-  proxyBook : List Bytes              -- served method names (lower-cased by parseProxyBook)
+  proxyBook : List Bytes              -- the book's keys as the server holds them (lower-cased by parseProxyBook)
   db : List (Bytes × UserRec)
   cache : Replay.Cache
   active : List (Bytes × List Nat)    -- active users and the ids of their sessions
@@ -104,12 +104,20 @@ def dbAuthoriseSession (s : Srv) (uid : Bytes) (nowSec : Int) (nExisting : Nat) 
 def setSessions (act : List (Bytes × List Nat)) (uid : Bytes) (ss : List Nat) : List (Bytes × List Nat) :=
   (uid, ss) :: act.filter (fun a => !(a.1 == uid))
 
+/-- ASCII lower-casing, what `strings.ToLower` does on ASCII names (non-ASCII names follow Go's Unicode tables, which
+are not modelled: the harness uses ASCII names) -/
+def lowerAscii (b : Bytes) : Bytes :=
+  b.map (fun c => if 0x41 ≤ c.toNat ∧ c.toNat ≤ 0x5a then UInt8.ofNat (c.toNat + 32) else c)
+
+/-- the key under which `dispatchConnection` looks a received proxy-method name up in the book -/
+def bookKey (m : Bytes) : Bytes := if Gen.Auth.proxyLookupLowercases then lowerAscii m else m
+
 /-- what follows a successful `AuthFirstPacket` in `dispatchConnection`.  `sessErrGoesWeb`: does the branch taken when
 `user.GetSession` refuses a new session end in `goWeb()` (`dispatchInfo` instantiates it with the extracted fact) -/
 def dispatchInfoWith (sessErrGoesWeb : Bool) (s : Srv) (info : ClientInfo) (now : Int) : Srv × Decision :=
   if !(Gen.Auth.encMethods.contains (info.enc.toNat : Int)) then (s, .web)
   else if Gen.Auth.adminGate (s.adminUID.length : Int) (info.uid == s.adminUID) (info.sid : Int) then (s, .admin)
-  else if !(s.proxyBook.contains info.method) then (s, .web)
+  else if !(s.proxyBook.contains (bookKey info.method)) then (s, .web)
   else
     let nowSec := now / 1000000000
     let byp := isBypass s info.uid
